@@ -114,6 +114,10 @@ def prop(spec, rec):
     agg = R.sum(axis=0)
     want_peak = max(0.0, float(agg.max())) if agg.size else 0.0
     require(close(sim.peak, want_peak, ab=1e-9), "peak_is_max_aggregate_current", lambda: "peak %r, max aggregate %r" % (sim.peak, want_peak))
+    df = sim.charging_rates_as_df()
+    require(list(df.columns) == m.station_ids and np.array_equal(df.to_numpy().T, R), "charging_rates_as_df", lambda: "charging_rates_as_df (columns %r) differs from charging_rates" % list(df.columns))
+    for i, sid in enumerate(m.station_ids):
+        require(sim.index_of_evse(sid) == i, "index_of_evse", lambda: "index_of_evse(%r) = %r, row %d" % (sid, sim.index_of_evse(sid), i))
     ac = acnsim.aggregate_current(sim)
     require(np.allclose(ac, agg, rtol=1e-12, atol=1e-12), "aggregate_current", "aggregate_current differs from column sums")
     ap = acnsim.aggregate_power(sim)
